@@ -85,13 +85,35 @@ def probe(raw, deg, targets=None):
     from eko import interpolation
 
     rec = {"kind": "probe", "raw": [rj(x) for x in raw], "deg": int(deg), "err": "",
-           "areas": [], "pts": [], "vals": [], "tgts": []}
+           "nonfinite": False, "areas": [], "pts": [], "vals": [], "tgts": []}
     try:
         xg = interpolation.XGrid([float(x) for x in raw], log=False)
         disp = interpolation.InterpolatorDispatcher(xg, deg, mode_N=False)
     except Exception as ex:  # noqa: BLE001 - the exception class is the observation
         rec["err"] = type(ex).__name__
         return rec, 0
+    try:
+        return _probe_body(rec, raw, deg, targets, disp)
+    except _NonFinite:
+        return {"kind": "probe", "raw": rec["raw"], "deg": int(deg), "err": "", "nonfinite": True,
+                "areas": [], "pts": [], "vals": [], "tgts": []}, 0
+    except Exception as ex:  # noqa: BLE001 - an accepted grid that cannot be evaluated
+        return {"kind": "probe", "raw": rec["raw"], "deg": int(deg), "err": type(ex).__name__ + "-on-use",
+                "nonfinite": False, "areas": [], "pts": [], "vals": [], "tgts": []}, 0
+
+
+class _NonFinite(Exception):
+    pass
+
+
+def _finite(v):
+    v = float(v)
+    if not math.isfinite(v):
+        raise _NonFinite()
+    return v
+
+
+def _probe_body(rec, raw, deg, targets, disp):
     g = sorted(raw)
     if [float(x) for x in g] != [float(x) for x in disp.xgrid.raw]:
         rec["err"] = "grid-not-sorted-unique"
@@ -112,7 +134,7 @@ def probe(raw, deg, targets=None):
             # the denominators of the coefficients divide D_j (see _block_bound); factor 4 slack
             maxden = dj
             coefs = []
-            cmax = max(abs(float(c)) for c in a.coefs)
+            cmax = max(abs(_finite(c)) for c in a.coefs)
             for c in a.coefs:
                 f = recover(c, maxden * 4, 64 * EPS * max(cmax, 1e-300))
                 if f is None:
@@ -128,7 +150,7 @@ def probe(raw, deg, targets=None):
     # values at the evaluation set
     def value(j, x):
         bf = disp[j]
-        v = float(bf.evaluate_x(float(x)))
+        v = _finite(bf.evaluate_x(float(x)))
         scale = 0.0
         djmax = 1
         for a in rec["areas"][j]:
@@ -156,7 +178,7 @@ def probe(raw, deg, targets=None):
         for t, x in enumerate(tgt):
             row = []
             for j in range(n):
-                v = float(R[t][j])
+                v = _finite(R[t][j])
                 scale = 1.0
                 djmax = 1
                 for a in rec["areas"][j]:
@@ -272,7 +294,17 @@ class Measured:
 
 def measure_cell(cell, sample, seed):
     """Measure one planned law cell on one random grid; returns the trace record (ints only)
-    and a replay description."""
+    and a replay description.  An exception of the code on a valid request is reported as the
+    worst class (the law cannot hold where the basis cannot be built / evaluated)."""
+    try:
+        return _measure_cell(cell, sample, seed)
+    except Exception as ex:  # noqa: BLE001
+        rec = {"kind": "law", "cell": cell, "sample": int(sample), "resid_e": 9, "bound_e": -20}
+        return rec, {"cell": cell, "sample": sample, "raised": f"{type(ex).__name__}: {ex}",
+                     "grid": [], "target": [0.0], "resid": float("inf"), "bound": 0.0}
+
+
+def _measure_cell(cell, sample, seed):
     import random
 
     rng = random.Random(f"{seed}|{sorted(cell.items())}|{sample}")
